@@ -140,7 +140,22 @@ def _resolve_attribute_annotation(  # noqa: C901, PLR0911, PLR0912, PLR0913
                     resolved: AttributeAnnotation = _resolve_attribute_annotation(
                         alias.__value__,
                         self_annotation=None,
-                        type_parameters=type_parameters,
+                        type_parameters={
+                            **type_parameters,
+                            **{  # use the alias arguments as values of its type parameters
+                                parameter.__name__: type_parameters.get(
+                                    argument.__name__,
+                                    argument.__bound__ or Any,
+                                )
+                                if isinstance(argument, TypeVar)
+                                else argument
+                                for parameter, argument in zip(
+                                    alias.__type_params__,
+                                    get_args(generic_alias),
+                                    strict=False,
+                                )
+                            },
+                        },
                         module=module,
                         localns=localns,
                         recursion_guard=recursion_guard,
